@@ -208,7 +208,7 @@ impl Property for C19 {
             .boxed()
     }
     fn quota(tier: Tier) -> u64 {
-        tier.pick(300_000, 6_000_000)
+        tier.pick(4_000_000, 60_000_000)
     }
     fn rule() -> String {
         "Arbitrary structural values (not necessarily valid) of all 10 types and nested GeometryCollections to depth 4, with empty \
